@@ -118,6 +118,10 @@ class Check:
         for what, n in known_hits.items():
             print(f"KNOWN-FINDING: property={self.prop} {what} ({n} occurrence(s) in this run)")
         rc = 0
+        if os.path.isdir(REPLAY_DIR):
+            for name in os.listdir(REPLAY_DIR):
+                if name.startswith(f"{self.prop}_{self.tier}_"):
+                    os.unlink(os.path.join(REPLAY_DIR, name))
         if new:
             os.makedirs(REPLAY_DIR, exist_ok=True)
             seen = set()
